@@ -22,7 +22,7 @@ func init() {
 			{Name: "table", Pkg: "./pkg/station/lib", Run: "^TestVerifC07Table$", Drivers: []string{"lib"}, TimeoutQ: 10 * time.Minute, TimeoutT: 40 * time.Minute},
 			{Name: "reload", Pkg: "./pkg/station/lib", Run: "^TestVerifC07Reload$", Drivers: []string{"lib"}, TimeoutQ: 10 * time.Minute, TimeoutT: 40 * time.Minute},
 			{Name: "pipeline", Pkg: "./pkg/station/lib", Run: "^TestVerifC07Pipeline$", Drivers: []string{"lib"}, TimeoutQ: 10 * time.Minute, TimeoutT: 40 * time.Minute},
-			{Name: "stale", Pkg: "./pkg/station/lib", Run: "^TestVerifC07StaleActivation$", Drivers: []string{"lib"}, Files: []string{"_c10_"}, Exports: []string{"cdtls", "lib"}, TimeoutQ: 10 * time.Minute, TimeoutT: 40 * time.Minute},
+			{Name: "stale", Pkg: "./pkg/station/lib", Run: "^TestVerifC07StaleActivation$", Drivers: []string{"lib"}, Files: []string{"_c07stale_", "_c10_"}, Exports: []string{"cdtls", "lib"}, TimeoutQ: 10 * time.Minute, TimeoutT: 40 * time.Minute},
 		},
 	})
 }
